@@ -100,7 +100,8 @@ Proof.
         -- rewrite bytes_of_bits_8. lia.
         -- rewrite bytes_of_bits_8. destruct (used s1 <? offset s1 + f) eqn:E; lia.
       * rewrite app_nil_r. reflexivity.
-      * rewrite norm_app. unfold norm at 2. cbn [m_width Z.eqb]. reflexivity.
+      * rewrite norm_app. unfold norm at 2. cbn [m_width m_bit Z.eqb].
+        replace (bound_bit s1 - 0 <? 0) with false by lia. reflexivity.
   - (* positive width *)
     assert (Hw0 : 0 < w <= 8 * f) by lia.
     cbn [andb].
